@@ -89,7 +89,7 @@ SuccessStoresBody ==
        /\ \A q \in Paths \ {LastOp.p} : file'[q] = file[q]]_vars
 (* concatenation of contents: associative, <<>> neutral, lengths add up, normal form kept
    (so "append b then c" and "append b \o c" are the same file); evaluated once *)
-SmallPieces == {q \in [s : 1..2, a : 0..2, b : 1..3] : q.a < q.b}
+SmallPieces == {q \in [s : 1..2, a : 0..1, b : 1..2] : q.a < q.b}
 SmallContents == {x \in {<<>>} \cup {<<q>> : q \in SmallPieces} \cup {<<q, r>> : q \in SmallPieces, r \in SmallPieces} : Normal(x)}
 CatLaws ==
   hist = <<>> =>
